@@ -31,6 +31,19 @@ Theorem C21_one_bucket :
       b_sum (observe O v d) = f_add O (b_sum d) v.
 Proof. exact @observe_one_bucket. Qed.
 
+(* With upper bounds sorted by a transitive <= (what an accepted declaration
+   gives for non-NaN boundaries), that bucket is the only one whose half-open
+   range (previous bound, own bound] contains v. *)
+Theorem C21_target_is_containing_range :
+  forall (F : Type) (O : fops F) v ms i,
+    (forall x y z, f_leb O x y = true -> f_leb O y z = true -> f_leb O x z = true) ->
+    (forall a b x y, (a < b)%nat -> nth_error ms a = Some x -> nth_error ms b = Some y -> f_leb O x y = true) ->
+    is_target O v ms i ->
+    forall m, nth_error ms i = Some m -> f_leb O v m = true ->
+    forall j mj, nth_error ms j = Some mj -> f_leb O v mj = true ->
+      (j = 0%nat \/ exists p, nth_error ms (pred j) = Some p /\ f_leb O v p = false) -> j = i.
+Proof. exact @target_is_containing_range. Qed.
+
 (* For every list of ranges a datum is created from and every observation
    sequence: the bucket counts sum to the observation count, which is the
    number of observations. *)
@@ -131,6 +144,7 @@ Example C21_example_nan_old :
 Proof. repeat split. Qed.
 
 Print Assumptions C21_one_bucket.
+Print Assumptions C21_target_is_containing_range.
 Print Assumptions C21_counts_sum_to_count.
 Print Assumptions C21_sum.
 Print Assumptions C21_accepted_boundaries_increase.
